@@ -214,8 +214,8 @@ def firing(acc, thorough):
                      "no corpus expression and no witness text makes {} produce a value".format(n))
 
 
-MODS_EARLY = ["early", "früh", "frühe", "früher", "frühen", "frühem"]
-MODS_LATE = ["late", "spät", "späte", "später", "späten", "spätem"]
+MODS_EARLY = ["early", "früh", "früher", "frühen", "frühem"]
+MODS_LATE = ["late", "spät", "später", "späten", "spätem"]
 VERY = ["", "very ", "sehr "]
 
 
